@@ -118,7 +118,7 @@ func (e *Engine) load(fr *frame, T types.Type, addr Value) Value {
 		}
 		return e.selectTree(p.Idx, n, func(i int) *sym.Term { return p.S[i].(*sym.Term) })
 	case Opaque:
-		e.unsupported("load through opaque pointer: " + p.Why)
+		e.unsupported("load through opaque pointer at " + e.where(fr) + ": " + p.Why)
 	case UnsafePtr:
 		return e.load(fr, T, p.P)
 	}
